@@ -149,8 +149,22 @@ def summary(o):
     return flows, servers, o.client_out
 
 
+def _one_message_each(case):
+    """sequential mode presupposes that every generated request is exactly one request on the wire; a body without
+    framing headers is read as a pipelined second request, which the client then sends without waiting"""
+    import ref_http1
+    for r in case["reqs"]:
+        res = ref_http1.parse_requests(http1gen.req_bytes(r), eof=False)
+        if len(res.msgs) != 1 or res.error or res.partial is not None or res.rest:
+            return False
+    return True
+
+
 def check_case(case, ctx):
     case["edits"] = []
+    if (case.get("seg") or {}).get("sequential") and not _one_message_each(case):
+        case["seg"]["sequential"] = False  # back to the pipelined relation (surplus server bytes are trimmed there)
+        case["seg"]["kind"] = "sequential-demoted"
     fix_close(case)  # domain normalisation is part of the check, so shrunk/replayed cases stay inside the domain
     whole = dict(case)
     whole["seg"] = None
@@ -192,6 +206,14 @@ def check_case(case, ctx):
             return
     if sa != sb:
         ctx.fail("seg-server-bytes", "bytes to servers differ whole=%r seg=%r" % (sa, sb))
+    if ca != cb and any("expect:100-continue" in r["cls"] for r in case["reqs"]):
+        # RFC 9110 10.1.1: a server MAY omit 100 (Continue) if it has already received some of the content -- whether the
+        # body had started to arrive when the head was processed is exactly what segmentation changes, and both answers
+        # mean the same to the client.  Only mitmproxy's own bare interim response is neutral.
+        k = b"HTTP/1.1 100 Continue\r\n\r\n"
+        if ca.replace(k, b"") == cb.replace(k, b""):
+            ctx.cls("100-continue-sent-in-one-run-only")
+            ca = cb = b""
     if ca != cb:
         if strip_error_page(ca) == strip_error_page(cb) and fa and fa[-1]["error"]:
             ctx.fail("seg-error-page-presence", "the last flow errored in both runs but only one run sent mitmproxy's error "
